@@ -161,6 +161,7 @@ func c12hmtx(k *mon.Case, n, tail, variant int) {
 		}
 	}
 	derived := false
+	cls := map[string]bool{}
 	lsb := make([]funit.Int16, n)
 	switch variant % 3 {
 	case 0: // side bearings given, no extents
@@ -173,7 +174,7 @@ func c12hmtx(k *mon.Case, n, tail, variant int) {
 		info.GlyphExtents = make([]funit.Rect16, n)
 		for i := range info.GlyphExtents {
 			if r.IntN(4) == 0 {
-				k.Class("hmtx:empty-extents")
+				cls["hmtx:empty-extents"] = true
 				continue // empty glyph
 			}
 			x0 := funit.Int16(r.IntN(1200) - 400)
@@ -188,11 +189,11 @@ func c12hmtx(k *mon.Case, n, tail, variant int) {
 		for i := range info.GlyphExtents {
 			switch r.IntN(4) {
 			case 0:
-				k.Class("hmtx:empty-extents")
+				cls["hmtx:empty-extents"] = true
 			case 1:
 				x, y := i16any(r), i16any(r)
 				info.GlyphExtents[i] = funit.Rect16{LLx: x, LLy: y, URx: x, URy: y}
-				k.Class("hmtx:zero-area-extents")
+				cls["hmtx:zero-area-extents"] = true
 			default:
 				info.GlyphExtents[i] = funit.Rect16{LLx: i16any(r), LLy: i16any(r), URx: i16any(r), URy: i16any(r)}
 			}
@@ -200,6 +201,9 @@ func c12hmtx(k *mon.Case, n, tail, variant int) {
 		}
 		info.LSB = lsb
 		k.Class("hmtx:lsb-given")
+	}
+	for name := range cls {
+		k.Class(name)
 	}
 	if extreme {
 		k.Class("hmtx:int16-extremes")
